@@ -45,6 +45,8 @@ NoWakers == << >>
 WB_far == (1 :> 4097)
 WB_two == (10 :> 10) @@ (262154 :> 262154)   \* two bitmaps announced through the same poll-waker slot
 S_w2d == (1 :> <<<<"wake", 10>>>>) @@ (2 :> <<<<"wake", 262154>>, <<"wake", 262154>>>>)
+WB_ext == (8 :> 1) @@ (1 :> 2)               \* a plain Waker (slab index 1) next to the channel's Waker (index 2)
+S_ext == (1 :> <<<<"send", 1>>, <<"send", 2>>>>) @@ (2 :> <<<<"wake", 8>>, <<"wake", 8>>>>)
 WB_ctl == (7 :> 1) @@ (1 :> 2)               \* control Waker (slab index 1) + the channel's Waker (index 2)
 S_ctl == (1 :> <<<<"send", 1>>, <<"send", 2>>>>) @@ (2 :> <<<<"wakectl">>>>)     \* the channel's / piped thread's Waker sits in the second bitmap
 =============================================================================
